@@ -115,6 +115,11 @@ int main(int argc, char** argv) {
     try { x.add_space_dimensions_and_embed(BD_Shape<mpq_class>::max_space_dimension()); } catch (const std::length_error&) { what = "std::length_error"; } catch (const std::bad_alloc&) { what = "std::bad_alloc"; } catch (const std::exception&) { what = "another exception"; }
     printf("%s BD_Shape::add_space_dimensions_and_embed(max_space_dimension()): %s thrown (documented: std::length_error)\n", std::string(what) == "std::length_error" ? "not reproduced" : "REPRODUCED", what);
   }
+  if (only.empty() || only == "box_limited_strict") {
+    Rational_Box x(2), y(2, EMPTY); Constraint_System cs; cs.insert(A >= 0); cs.insert(A < 7);
+    bool threw = false; try { x.limited_CC76_extrapolation_assign(y, cs); } catch (const std::invalid_argument&) { threw = true; }
+    printf("%s Box::limited_CC76_extrapolation_assign(y, {A>=0, A<7}): threw=%d (documented: std::invalid_argument for a strict inequality)\n", threw ? "not reproduced" : "REPRODUCED", threw);
+  }
   if (only == "grid_crash") {   // crashes: not part of the default sequence
     Grid x(2); x.add_congruence((A %= 0) / 2); x.add_congruence((A %= 1) / 2);   // empty, not yet known to be
     Grid_Generator_System gs(grid_line(A));
